@@ -26,7 +26,8 @@ type pathExpression struct {
 // Returns an error if the path is invalid.
 func newPathExpression(path string) (*pathExpression, error) {
 	expression, literalCount, varNames, varCount, tokens := templateToRegularExpression(path)
-	compiled, err := regexp.Compile(expression)
+	// let . also match a newline ; a (decoded) URL path can contain one
+	compiled, err := regexp.Compile("(?s)" + expression)
 	if err != nil {
 		return nil, err
 	}
